@@ -15,8 +15,11 @@ import re
 
 MARK = re.compile(r'⟦(\d+)⟧')
 BUILTINS = ['len', 'print', 'str', 'int', 'sorted', 'list', 'dict', 'isinstance', 'object', 'Exception']
-LIB_NAMES = ['lib_a', 'lib_b', 'lib_f']
-LIB_SRC = 'lib_a = 1\nlib_b = [1, 2]\ndef lib_f(*a, **k):\n    return 1\n_lib_private = 3\n'
+LIB_NAMES = ['lib_a', 'lib_b', 'lib_f', 'lib_c', 'lib_d', 'lib_e', 'lib_g']
+# lib_c, lib_d, lib_e, lib_g are bound on only some paths of the module body (an if without else, a loop body and its
+# target, a try body): they are bound whenever this module is really imported, and exported by a star import
+LIB_SRC = ('lib_a = 1\nlib_b = [1, 2]\ndef lib_f(*a, **k):\n    return 1\n_lib_private = 3\n'
+           'if lib_a:\n    lib_c = 4\nfor lib_d in lib_b:\n    lib_e = lib_d\ntry:\n    lib_g = lib_f()\nexcept ValueError:\n    pass\n')
 # two project modules that star-import each other (CPython: importing gencyca first yields both names)
 CYC_A_SRC = 'from gencycb import *\ncyc_a = 1\n'
 CYC_B_SRC = 'from gencyca import *\ncyc_b = 2\n'
